@@ -376,6 +376,93 @@ def r4_dispatch_total(ctx):
                     'missing serializer', key='no-none-check')
 
 
+PY_OPERATOR_OF_DUNDER = {'__add__': '+', '__sub__': '-', '__mul__': '*',
+                         '__truediv__': '/', '__mod__': '%', '__pow__': '**'}
+
+
+def django_combinable_connectors():
+    """connector text -> Python operator that produces it (None when only a
+    method such as .bitand() does), read from the installed Django source."""
+    spec = importlib.util.find_spec('django.db.models.expressions')
+    if spec is None or not spec.origin:
+        raise AnalysisError('R-C13.6: django.db.models.expressions not found')
+    with open(spec.origin) as fp:
+        tree = ast.parse(fp.read())
+    consts, producers = {}, {}
+    for n in tree.body:
+        if isinstance(n, ast.ClassDef) and n.name == 'Combinable':
+            for st in n.body:
+                if isinstance(st, ast.Assign) and len(st.targets) == 1 and \
+                        isinstance(st.targets[0], ast.Name) and \
+                        st.targets[0].id.isupper() and \
+                        const_str(st.value) is not None:
+                    consts[st.targets[0].id] = const_str(st.value)
+                if isinstance(st, ast.FunctionDef):
+                    for c in ast.walk(st):
+                        if isinstance(c, ast.Call) and \
+                                call_name(c) == '_combine' and \
+                                len(c.args) >= 2 and isinstance(
+                                    c.args[1], ast.Attribute):
+                            producers.setdefault(c.args[1].attr, []).append(
+                                st.name)
+    out = {}
+    for name, text in consts.items():
+        ops = [PY_OPERATOR_OF_DUNDER[m] for m in producers.get(name, [])
+               if m in PY_OPERATOR_OF_DUNDER]
+        out[text] = ops[0] if ops else None
+    return out
+
+
+def r6_connector_vocabulary(ctx):
+    """A combined expression is rendered as Python source that must rebuild
+    it.  Django's connector constants are SQL-side text: only + - * / are
+    also the Python operator that produces them (POW is '^' but written
+    `**`, MOD is '%%' but written `%`, the bitwise ones have no operator at
+    all and need .bitand() etc.).  The serialiser must translate through a
+    table that covers every connector Django defines, never print
+    value.connector itself."""
+    ctx.rule('R-C13.6')
+    p = ctx.program
+    conns = django_combinable_connectors()
+    ctx.floor('connectors defined by django Combinable', len(conns), 8)
+    cls = p.cls(SER, 'CombinedExpressionSerialization')
+    f = cls.methods.get('serialize_to_python')
+    if f is None:
+        raise AnalysisError('R-C13.6: CombinedExpressionSerialization.'
+                            'serialize_to_python not found')
+    verbatim = None
+    for n in walk_no_nested(f.node):
+        if isinstance(n, ast.BinOp) and isinstance(n.op, ast.Mod):
+            for x in ast.walk(n.right):
+                if isinstance(x, ast.Attribute) and x.attr == 'connector':
+                    verbatim = n
+    tables = {}
+    for k in cls.mro():
+        for name, v in k.class_attrs.items():
+            if isinstance(v, ast.Dict):
+                tables[name] = {const_str(x) for x in v.keys
+                                if x is not None and const_str(x)}
+    covered = set().union(*tables.values()) if tables else set()
+    differing = sorted(c for c, op in conns.items() if op != c)
+    if verbatim is not None:
+        ctx.finding(f, verbatim, 'the connector of a combined expression is '
+                    'written into the Python text as it is; for %s the text '
+                    'is not the Python operator that rebuilds the expression '
+                    '(SyntaxError / NotImplementedError / a comment for "#" '
+                    'when the hint is loaded)' % ', '.join(
+                        repr(c) for c in differing),
+                    key='connector-verbatim')
+    else:
+        missing = sorted(set(conns) - covered)
+        if missing:
+            ctx.finding(f, None, 'no Python spelling for the connector(s) %s '
+                        'django defines' % ', '.join(map(repr, missing)),
+                        key='connector-missing:%s' % ','.join(missing))
+        else:
+            ctx.ok(f, 'every connector django defines (%d) is translated '
+                   'through a table' % len(conns))
+
+
 def r5_hint_coverage(ctx):
     ctx.rule('R-C13.5')
     p = ctx.program
@@ -488,3 +575,4 @@ def run(ctx):
     r3_parenthesise(ctx)
     r4_dispatch_total(ctx)
     r5_hint_coverage(ctx)
+    r6_connector_vocabulary(ctx)
